@@ -347,6 +347,48 @@ def r13_5(ctx):
         ctx.bad("R13.5", fi.module, fi.qual, "for key in new_msg_keys", "the reconcile's flag merge no longer iterates over exactly the new keys", fi.node.lineno)
 
 
+def r13_7(ctx):
+    """Between the server's last look at a folder and its next write of .mh_sequences an MH agent may have delivered a
+    message and listed it in `unseen`.  The server's in-memory flag sets know nothing of that message, so a write of those
+    sets alone erases the agent's entry - the next resync then finds a new message that is in no sequence and announces it as
+    \\Seen.  (A resync before the command does not close the window: it is skipped while the folder's mtime, kept in whole
+    seconds, has not advanced, and the command awaits after it.)  Every write goes through set_sequences_in_folder(); what
+    that function hands to MH.set_sequences() is therefore built from the caller's sets *and* from a fresh read of the
+    folder's sequences, restricted to the keys the mailbox does not know (`self.msg_keys`)."""
+    p = ctx.p
+    fi = p.func("mbox.Mailbox.set_sequences_in_folder")
+    ctx.analysed(fi)
+    writes = [c for c in calls_in(fi.node) if call_name(c) == "set_sequences"]
+    ctx.require(writes, "set_sequences_in_folder: call of MH.set_sequences not found")
+    # names (transitively) feeding the written value
+    feeds, todo = set(), [writes[0].args[0]] if writes[0].args else []
+    reads_fresh = reads_known = False
+    seen_names = set()
+    while todo:
+        e = todo.pop()
+        for x in ast.walk(e):
+            if isinstance(x, ast.Call) and call_name(x) == "get_sequences":
+                reads_fresh = True
+            if isinstance(x, ast.Attribute) and norm(x) == "self.msg_keys":
+                reads_known = True
+            if isinstance(x, ast.Name) and x.id not in seen_names:
+                seen_names.add(x.id)
+                for s_ in body_walk(fi.node):
+                    if isinstance(s_, (ast.Assign, ast.AugAssign)) and any(isinstance(t, ast.Name) and t.id == x.id for t in (s_.targets if isinstance(s_, ast.Assign) else [s_.target])):
+                        todo.append(s_.value)
+                    elif isinstance(s_, (ast.For,)) and any(isinstance(t, ast.Name) and t.id == x.id for t in ast.walk(s_.target)):
+                        todo.append(s_.iter)
+                    elif isinstance(s_, ast.Expr) and isinstance(s_.value, ast.Call) and isinstance(s_.value.func, ast.Attribute) and any(isinstance(r, ast.Name) and r.id == x.id for r in ast.walk(s_.value.func.value)):
+                        todo.extend(s_.value.args)  # to_write.setdefault(name, set()).update(not_ours)
+    callers = [f2 for f2 in p.functions.values() for c in calls_in(f2.node) if call_name(c) == "set_sequences" and f2.key != fi.key and "self.mailbox" in norm(call_recv(c) or ast.Name(""))]
+    if callers:
+        ctx.bad("R13.7", callers[0].module, callers[0].qual, "MH.set_sequences called outside set_sequences_in_folder", "a second writer of .mh_sequences bypasses the merge with what an MH agent recorded for messages the server has not seen yet", callers[0].node.lineno)
+    if reads_fresh and reads_known:
+        ctx.ok("R13.7", where(fi), "what is written to .mh_sequences = the caller's sets + the folder's own entries for keys the mailbox does not know")
+    else:
+        ctx.bad("R13.7", fi.module, fi.qual, "self.mailbox.set_sequences(<the caller's sets only>)", "the writer of .mh_sequences hands MH exactly the in-memory flag sets: the `unseen` entry an MH agent recorded for a message delivered since the server last read the folder is erased, and the next resync announces that message as \\Seen (STORE, APPEND, EXPUNGE, COPY all write this way)", writes[0].lineno)
+
+
 def run(ctx):
     ctx.do(r13_1)
     ctx.do(r13_2)
@@ -354,6 +396,7 @@ def run(ctx):
     ctx.do(r13_4)
     ctx.do(r13_5)
     ctx.do(r13_6)
+    ctx.do(r13_7)
     from . import c10
     ctx.do(c10.r10_7)
     from . import c02 as _c02
